@@ -127,9 +127,20 @@ func c13Wait(maxIter int) {
 		verifrt.Assume(false) // bound: at most maxIter iterations of the wait loop are explored
 		return time.Time{}
 	}
+	// reference for a release in the first iteration: Wait = refill (decided by its own lemma), then take one token
+	ref := &tokenBucket{tokens: tb.tokens, capacity: tb.capacity, refillRate: tb.refillRate, idealRate: tb.idealRate,
+		lastRefill: tb.lastRefill, penaltyUntil: tb.penaltyUntil, failureCount: tb.failureCount}
+	ref.nowFunc = func() time.Time { return base.Add(time.Duration(p.nowNs)) }
+	ref.refill()
 	tb.Wait()
-	if calls == 1 {
+	if calls <= 1 { // (a Wait that does not even look at the clock is held to the same reference)
 		verifrt.Cover("wait-first-iteration")
+		// the time a release has been credited for is consumed: the state is refill's state minus one token, so the
+		// window bound (capacity + T x rate) follows from the refill lemma by induction over the releases
+		verifrt.Assert(verifrt.All(tb.tokens == ref.tokens-1, tb.lastRefill.Equal(ref.lastRefill), tb.penaltyUntil.Equal(ref.penaltyUntil)),
+			"C13 a release leaves refill's state minus one token (credited time is not credited again)")
+		verifrt.Assert(verifrt.All(tb.refillRate == ref.refillRate, tb.idealRate == ref.idealRate, tb.capacity == ref.capacity, tb.failureCount == ref.failureCount),
+			"C13 Wait leaves rate/capacity/failures alone")
 	} else {
 		verifrt.Cover("wait-second-iteration")
 	}
